@@ -120,7 +120,7 @@ def run_pkgselect(case):
         else:
             ds = Flow(Src(res)).datastream()
             step = Load((ds.dp.descriptor, ds.res_iter), resources=sel)
-        out = run_stream([], [step])
+        out = run_stream([], [step], rerun=(case['how'] == 'dp'))
     finally:
         shutil.rmtree(d, ignore_errors=True)
     if 'error' in out:
